@@ -72,3 +72,8 @@ CHECKS["C06"] = ("exploration",
   "A one-step configuration is run (init, require, execute) on generated states: the population must come back in order, every individual carrying f(solution), the counter advanced by exactly the population size, the objective call log equal to the population as a multiset, the evaluator back in the scope it was registered in, and a missing evaluator reported before any objective call. In template runs the same audit brackets every PopulationEvaluator execution, the reported total must equal the number of objective invocations, and a budget-bounded loop must overshoot by less than one pass. Parallel cases run inside rayon pools of 1/2/4/16 threads with pseudo-random objective latency; the evidence counts runs in which completion order actually differed from call order.",
   "The rayon schedule is perturbed, not enumerated. Budget loops are additionally capped at 150 iterations so that a broken counter cannot hang the harness.",
   "DESIGN.md §6 C06")
+CHECKS["C07"] = ("exploration",
+  "proptest over sequences of candidate populations against a strict-improvement model (best individual) and a k-smallest multiset oracle (elitist archive, re-insertion), plus template runs with a minimum-recording objective audited at every best update",
+  "Sequences of populations with ties, duplicates, signed zeros, +inf and extreme objectives are fed to the best-individual update (component and direct) and to the elitist archive for every capacity 0-7, then re-inserted into populations that already contain some elitists; every template is run with an objective that records the minimum it ever returned: the reported best must equal it and must never get worse at any best-update step (tracked per scope).",
+  "Known finding: real_fa evaluates unrepaired positions inside the firefly update that never reach the best update (suppressed only when the run minimum was returned for a position outside the domain).",
+  "DESIGN.md §6 C07")
